@@ -23,7 +23,8 @@ import (
 // The pods that are bound on the node at the end of the case are the candidate victims of a preemptor.  The generic
 // preemption loop is replayed on the preemptor's cycle state through the REAL Plugin.RemovePod / Plugin.AddPod
 // (PreFilterExtensions): a walk of 2-7 steps, each removing a victim that is on the node or reprieving one that was
-// removed.  After every step
+// removed (every 6th case is degenerate: AddPod may name a pod that was not removed; a pod is 'removed' iff its
+// removals minus additions are positive, kept within -1..1).  After every step
 //   * the CPUs the plugin reports preemptible (nodeAlloc.AppendCPUSet(∅), what tryAllocateFromNode passes to Allocate) and
 //     resourceManager.GetAvailableCPUs(node, ∅, preemptible) are observed (model: `prm` / `pad`);
 //   * the preemptor goes through the real Plugin.Filter and then Plugin.allocate (what Reserve runs before committing;
